@@ -864,6 +864,341 @@ Section Kinds.
 End Kinds.
 
 (* ================================================================================================ *)
+(** * Part 5: every checkpoint a run produces from a well-formed one is well formed (C05's [wf_*]), so the
+    well-formedness hypotheses of the composition theorems reduce to the initial checkpoint *)
+Section InvIt.
+  Variables (C R Evt : Type).
+  Variable iterate : C -> N -> N -> N -> res (R * N * N * list Evt).
+  Variable add : C -> R -> N -> C.
+  Variable cb : C -> bool.
+
+  Lemma exec_inv_it (P : C -> Prop) :
+    (forall c calls g idx r g' idx' evs, P c -> iterate c calls g idx = Ok (r, g', idx', evs) -> P (add c r g')) ->
+    forall cs c g idx ls c' idx' rest, Lemmas_Run.Exec C R Evt iterate add cb cs c g idx ls c' idx' rest -> P c ->
+    forall x, In x (Lemmas_Run.chks C Evt c ls) -> P x.
+  Proof.
+    intros Hadd cs c g idx ls c' idx' rest Hex.
+    induction Hex as [c g idx|calls cs c g idx l g' idx' Hok Hc|calls cs c g idx l g' idx' ls c' idx'' rest Hok Hc Hex IH];
+      intros Hp x Hin.
+    - destruct Hin as [<-|[]]. exact Hp.
+    - destruct Hok as (r & Hi & Ea & _). destruct Hin as [<-|[<-|[]]]; [exact Hp|]. rewrite Ea. eapply Hadd; eauto.
+    - destruct Hok as (r & Hi & Ea & _). destruct Hin as [<-|Hin]; [exact Hp|].
+      apply IH; [rewrite Ea; eapply Hadd; eauto|exact Hin].
+  Qed.
+End InvIt.
+
+Lemma set_nth_length {A} (l : list A) i a : length (set_nth l i a) = length l.
+Proof. revert i. induction l as [|x l IH]; intros [|i]; cbn; auto. Qed.
+
+Lemma Forall2_set_nth {A B} (P : A -> B -> Prop) l1 l2 i b :
+  Forall2 P l1 l2 -> (forall a, nth_error l1 i = Some a -> P a b) -> Forall2 P l1 (set_nth l2 i b).
+Proof.
+  intros H. revert i. induction H as [|x y l1 l2 Hxy H IH]; intros i Hb; [destruct i; constructor|].
+  destruct i as [|i]; cbn [set_nth].
+  - constructor; [apply Hb; reflexivity|exact H].
+  - constructor; [exact Hxy|]. apply IH. intros a Ha. apply Hb. exact Ha.
+Qed.
+
+Lemma Forall2_nth_error {A B} (P : A -> B -> Prop) l1 l2 i b :
+  Forall2 P l1 l2 -> nth_error l2 i = Some b -> exists a, nth_error l1 i = Some a /\ P a b.
+Proof.
+  intros H. revert i. induction H as [|x y l1 l2 Hxy H IH]; intros i Hb; [destruct i; discriminate|].
+  destruct i as [|i]; cbn in *; [injection Hb as <-; eauto|apply IH; exact Hb].
+Qed.
+
+Lemma iotaN_len g n : length (iotaN g n) = n.
+Proof. revert g. induction n as [|n IH]; intros g; cbn; [reflexivity|]. rewrite IH. reflexivity. Qed.
+
+Section Wf.
+  Context {K : Num}.
+  Context (L : Libm K).
+  Variable strm : N -> K.
+  Variable ps : list (dparams K).
+  Variable f : integrand K.
+  Variable mp : mcmap K.
+
+  (** ** the accumulator keeps one cell per bin *)
+  Definition dists_ok (ds : list (list (cell K))) : Prop :=
+    Forall2 (fun p d => length d = N.to_nat (d_bx p * d_by p)) ps ds.
+
+  Lemma acc_init_ok : dists_ok (a_dists (acc_init ps)).
+  Proof.
+    unfold dists_ok, acc_init. cbn [a_dists]. induction ps as [|p l IH]; cbn [map]; constructor; [|exact IH].
+    apply repeat_length.
+  Qed.
+
+  Lemma upd_bin_ok ds idx bin v ds' : dists_ok ds -> upd_bin ds idx bin v = Ok ds' -> dists_ok ds'.
+  Proof.
+    unfold upd_bin, dists_ok. intros H E. apply bind_Ok in E as (d & Hd & E). apply bind_Ok in E as (c & _ & E).
+    injection E as <-. unfold setN. apply Forall2_set_nth; [exact H|].
+    intros p Hp. rewrite set_nth_length. unfold getN, nthN in Hd.
+    destruct (nth_error ds (N.to_nat idx)) as [d'|] eqn:En; [|discriminate]. injection Hd as ->.
+    destruct (Forall2_nth_error _ _ _ _ _ H En) as (p' & Hp' & Hl). rewrite Hp in Hp'. injection Hp' as <-. exact Hl.
+  Qed.
+
+  Lemma do_fill_ok w ds fl ds' : dists_ok ds -> do_fill ps w ds fl = Ok ds' -> dists_ok ds'.
+  Proof.
+    intros H. destruct fl as [idx x v|idx x y v]; cbn [do_fill].
+    - unfold fill1d. destruct (negb (isfinite K (mul K v w))); [intros E; injection E as <-; exact H|].
+      intros E. apply bind_Ok in E as (p & _ & E).
+      destruct (ltb K (sub K x (d_xmin p)) (zero K)); [injection E as <-; exact H|].
+      destruct (negb (ltb K _ (ofN K (d_bx p)))); [injection E as <-; exact H|].
+      apply bind_Ok in E as (bx & _ & E). eapply upd_bin_ok; eauto.
+    - unfold fill2d. destruct (negb (isfinite K (mul K v w))); [intros E; injection E as <-; exact H|].
+      intros E. apply bind_Ok in E as (p & _ & E).
+      destruct (ltb K (sub K x (d_xmin p)) (zero K)); [injection E as <-; exact H|].
+      destruct (ltb K (sub K y (d_ymin p)) (zero K)); [injection E as <-; exact H|].
+      destruct (negb (ltb K _ (ofN K (d_bx p)))); [injection E as <-; exact H|].
+      apply bind_Ok in E as (bx & _ & E).
+      destruct (negb (ltb K _ (ofN K (d_by p)))); [injection E as <-; exact H|].
+      apply bind_Ok in E as (by_ & _ & E). eapply upd_bin_ok; eauto.
+  Qed.
+
+  Lemma do_fills_ok w fs : forall ds ds', dists_ok ds -> do_fills ps w ds fs = Ok ds' -> dists_ok ds'.
+  Proof.
+    induction fs as [|fl fs IH]; intros ds ds' H E; cbn [do_fills] in E; [injection E as <-; exact H|].
+    apply bind_Ok in E as (ds1 & E1 & E). eapply IH; [eapply do_fill_ok; eauto|exact E].
+  Qed.
+
+  Lemma finish_call_ok s o r a v : dists_ok (a_dists (it_acc s)) -> finish_call ps s o r = Ok (a, v) -> dists_ok (a_dists a).
+  Proof.
+    unfold finish_call. intros H E. apply bind_Ok in E as (ds & Hd & E).
+    destruct (invoke_main (a_main (it_acc s)) (i_val r) (o_weight o)) as [m v']. injection E as <- _.
+    cbn [a_dists]. eapply do_fills_ok; eauto.
+  Qed.
+
+  Lemma dist_results_wf calls : forall ds, dists_ok ds -> forallb wf_dres (dist_results calls ps ds) = true.
+  Proof.
+    unfold dists_ok. induction 1 as [|p d l1 l2 Hpd H IH]; [reflexivity|].
+    cbn [dist_results forallb]. rewrite IH, andb_true_r. unfold wf_dres, dist_result. cbn [dr_bins dr_par].
+    rewrite map_length. apply Nat.eqb_eq. exact Hpd.
+  Qed.
+
+  Lemma acc_result_wf a calls : dists_ok (a_dists a) -> wf_plain (acc_result ps a calls) = true.
+  Proof. intros H. unfold wf_plain, acc_result. cbn [p_dists]. apply dist_results_wf. exact H. Qed.
+
+  (** ** PLAIN *)
+  Lemma plain_iteration_wf d calls g idx r g' idx' evs :
+    plain_iteration strm ps f d calls g idx = Ok (r, g', idx', evs) -> wf_plain r = true.
+  Proof.
+    unfold plain_iteration. intros E. apply bind_Ok in E as (s & Hl & E). injection E as <- _ _ _.
+    apply acc_result_wf. revert Hl. apply (iter_loop_ind _ (fun _ s => dists_ok (a_dists (it_acc s)))).
+    - apply acc_init_ok.
+    - intros k s1 s2 H1 Hs. unfold plain_step in Hs. apply bind_Ok in Hs as ([a v] & Hf & Hs). injection Hs as <-.
+      cbn [it_acc]. eapply finish_call_ok; eauto.
+  Qed.
+
+  Lemma wf_base_add {R} (wf_r : R -> bool) (b : base R) r g :
+    wf_base wf_r b = true -> wf_r r = true -> wf_base wf_r (base_add b r g) = true.
+  Proof.
+    unfold wf_base, base_add. cbn [b_results b_gens]. intros H Hr. apply andb_true_iff in H as [H1 H2].
+    apply Nat.eqb_eq in H2. rewrite forallb_app, H1. cbn [forallb]. rewrite Hr. cbn [andb].
+    apply Nat.eqb_eq. rewrite !app_length, H2. cbn. lia.
+  Qed.
+
+  Lemma plain_chks_wf d cb cs (c : pchk K) idx c' idx' ls :
+    plain_run strm ps f d cb cs c idx = Ok (c', idx', ls) -> wf_pchk c = true ->
+    forall x, In x (chks _ _ c ls) -> wf_pchk x = true.
+  Proof.
+    unfold plain_run. intros H Hwf. apply run_exec in H as (g & rest & _ & Hex).
+    apply (exec_inv_it _ _ _ _ _ _ (fun x => wf_pchk x = true)) with (2 := Hex); [|exact Hwf].
+    intros c1 calls g1 i1 r g' i' evs H1 Hi. unfold wf_pchk. apply wf_base_add; [exact H1|].
+    eapply plain_iteration_wf; eauto.
+  Qed.
+
+  (** ** VEGAS *)
+  Lemma redistribute_length k (p : pdf K) d tmp avg : forall bin tb l,
+    redistribute k p d tmp avg bin tb = Ok l -> length l = k.
+  Proof.
+    induction k as [|k IH]; intros bin tb l E; cbn [redistribute] in E; [injection E as <-; reflexivity|].
+    apply bind_Ok in E as ([bin' tb'] & _ & E). destruct (N.eqb bin' 0); [discriminate|].
+    apply bind_Ok in E as (pr & _ & E). apply bind_Ok in E as (cu & _ & E). apply bind_Ok in E as (t & _ & E).
+    apply bind_Ok in E as (rest & Hr & E). injection E as <-. cbn [length]. f_equal. eapply IH; eauto.
+  Qed.
+
+  Lemma refine_dim_length p alpha data d row :
+    refine_dim L p alpha data d = Ok row -> length row = N.to_nat (pdf_bins p + 1).
+  Proof.
+    unfold refine_dim. set (old := dim_slice (pdf_x p) d (pdf_bins p + 1)). set (raw := dim_slice data d (pdf_bins p)).
+    destruct (N.eqb_spec (N.of_nat (length raw)) (pdf_bins p)) as [Hraw|]; cbn [negb]; [|discriminate].
+    destruct (N.eqb_spec (N.of_nat (length old)) (pdf_bins p + 1)) as [Hold|]; cbn [negb]; [|discriminate].
+    intros E. apply bind_Ok in E as (sm & Hsm & E).
+    destruct (eqb K (sum_from_first sm) (zero K)); [injection E as <-; lia|].
+    apply bind_Ok in E as (inner & Hin & E). apply redistribute_length in Hin.
+    destruct old as [|first old']; [discriminate|]. injection E as <-.
+    cbn [length]. rewrite app_length, Hin. cbn [length].
+    assert (2 <= length raw).
+    { unfold smooth in Hsm. destruct raw as [|d0 [|d1 rest]]; try discriminate. cbn. lia. }
+    lia.
+  Qed.
+
+  Lemma refine_dims_length p alpha data ds : forall x,
+    refine_dims L p alpha data ds = Ok x -> length x = length ds * N.to_nat (pdf_bins p + 1).
+  Proof.
+    induction ds as [|d ds IH]; intros x E; cbn [refine_dims] in E; [injection E as <-; reflexivity|].
+    apply bind_Ok in E as (row & Hrow & E). apply bind_Ok in E as (rest & Hrest & E). injection E as <-.
+    rewrite app_length, (refine_dim_length _ _ _ _ _ Hrow), (IH _ Hrest). cbn [length]. lia.
+  Qed.
+
+  Lemma refine_pdf_wf p alpha data q : refine_pdf L p alpha data = Ok q -> wf_pdf q = true.
+  Proof.
+    unfold refine_pdf. intros E. apply bind_Ok in E as (x & Hx & E). injection E as <-.
+    unfold wf_pdf. cbn [pdf_x pdf_bins pdf_dims]. apply Nat.eqb_eq.
+    rewrite (refine_dims_length _ _ _ _ _ Hx), iotaN_len. lia.
+  Qed.
+
+  Lemma vchk_pdf_wf (c : vchk K) p : wf_vchk c = true -> vchk_pdf L c = Ok p -> wf_pdf p = true.
+  Proof.
+    unfold wf_vchk, vchk_pdf. intros Hwf E. apply andb_true_iff in Hwf as [_ Hf].
+    destruct (b_results (vc_base c)) as [|r rs] eqn:Er.
+    - cbn [rev] in E. destruct (vc_first c) as [p'|]; [|discriminate]. injection E as <-. exact Hf.
+    - destruct (rev (r :: rs)) as [|r' l] eqn:Erev; [|eapply refine_pdf_wf; eauto].
+      apply (f_equal (@length _)) in Erev. rewrite rev_length in Erev. discriminate.
+  Qed.
+
+  Lemma add_squares_length bs : forall (adj : list K) bins j sq adj',
+    add_squares adj bins j bs sq = Ok adj' -> length adj' = length adj.
+  Proof.
+    induction bs as [|b bs IH]; intros adj bins j sq adj' E; cbn [add_squares] in E; [injection E as <-; reflexivity|].
+    apply bind_Ok in E as (old & _ & E). apply IH in E. rewrite E. unfold setN. apply set_nth_length.
+  Qed.
+
+  Lemma vegas_iteration_wf p calls g idx r g' idx' evs : wf_pdf p = true ->
+    vegas_iteration strm ps f p calls g idx = Ok (r, g', idx', evs) -> wf_vegasres r = true.
+  Proof.
+    unfold vegas_iteration. intros Hp E. apply bind_Ok in E as (s & Hl & E). injection E as <- _ _ _.
+    assert (HI : dists_ok (a_dists (it_acc s)) /\ length (it_adj s) = N.to_nat (pdf_dims p * pdf_bins p)).
+    { revert Hl. apply (iter_loop_ind _ (fun _ s => dists_ok (a_dists (it_acc s)) /\ length (it_adj s) = N.to_nat (pdf_dims p * pdf_bins p))).
+      - split; [apply acc_init_ok|apply repeat_length].
+      - intros k s1 s2 [H1 H2] Hs. unfold vegas_step in Hs. apply bind_Ok in Hs as ([[xs bs] w] & _ & Hs).
+        apply bind_Ok in Hs as ([a v] & Hf & Hs). apply bind_Ok in Hs as (adj & Ha & Hs). injection Hs as <-.
+        cbn [it_acc it_adj]. split; [eapply finish_call_ok; eauto|]. rewrite (add_squares_length _ _ _ _ _ _ Ha). exact H2. }
+    destruct HI as [H1 H2]. unfold wf_vegasres. cbn [v_plain v_pdf v_adj].
+    rewrite (acc_result_wf _ _ H1), Hp. cbn [andb]. apply Nat.eqb_eq. rewrite H2. f_equal. apply N.mul_comm.
+  Qed.
+
+  Lemma wf_vchk_add (c : vchk K) r g : wf_vchk c = true -> wf_vegasres r = true -> wf_vchk (vchk_add c r g) = true.
+  Proof.
+    unfold wf_vchk. intros H Hr. apply andb_true_iff in H as [H1 _]. cbn [vchk_add vc_base vc_first].
+    rewrite (wf_base_add _ _ _ _ H1 Hr). cbn [andb].
+    pose proof (base_add_results_nonempty (vc_base c) r g) as Hn.
+    destruct (b_results (base_add (vc_base c) r g)); [congruence|reflexivity].
+  Qed.
+
+  Lemma vegas_chks_wf d cb cs (c : vchk K) idx c' idx' ls :
+    vegas_run L strm ps f d cb cs c idx = Ok (c', idx', ls) -> wf_vchk (vchk_dimensions c d) = true ->
+    forall x, In x (chks _ _ (vchk_dimensions c d) ls) -> wf_vchk x = true.
+  Proof.
+    unfold vegas_run. intros H Hwf. apply run_exec in H as (g & rest & _ & Hex).
+    apply (exec_inv_it _ _ _ _ _ _ (fun x => wf_vchk x = true)) with (2 := Hex); [|exact Hwf].
+    intros c1 calls g1 i1 r g' i' evs H1 Hi. apply bind_Ok in Hi as (p & Hp & Hi).
+    apply wf_vchk_add; [exact H1|]. eapply vegas_iteration_wf; [|exact Hi]. eapply vchk_pdf_wf; eauto.
+  Qed.
+
+  (** ** multi-channel *)
+  Lemma add_dens_length (adj : list K) : forall dens sq adj', add_dens adj dens sq = Ok adj' -> length adj' = length adj.
+  Proof.
+    induction adj as [|a adj IH]; intros dens sq adj' E; cbn [add_dens] in E; [injection E as <-; reflexivity|].
+    destruct dens as [|dd dens]; [discriminate|]. apply bind_Ok in E as (rest & Hr & E). injection E as <-.
+    cbn [length]. f_equal. eapply IH; eauto.
+  Qed.
+
+  Lemma mc_iteration_wf d ws calls g idx r g' idx' evs :
+    mc_iteration strm ps f mp d ws calls g idx = Ok (r, g', idx', evs) -> wf_mcres_mc r = true.
+  Proof.
+    unfold mc_iteration. intros E. apply bind_Ok in E as (s & Hl & E). injection E as <- _ _ _.
+    assert (HI : dists_ok (a_dists (it_acc s)) /\ length (it_adj s) = length ws).
+    { revert Hl. apply (iter_loop_ind _ (fun _ s => dists_ok (a_dists (it_acc s)) /\ length (it_adj s) = length ws)).
+      - split; [apply acc_init_ok|apply repeat_length].
+      - intros k s1 s2 [H1 H2] Hs. unfold mc_step in Hs.
+        destruct (m_dens mp _ _ _ _ _) as [jac dens]. apply bind_Ok in Hs as (w & _ & Hs).
+        apply bind_Ok in Hs as ([a v] & Hf & Hs). apply bind_Ok in Hs as (adj & Ha & Hs). injection Hs as <-.
+        cbn [it_acc it_adj]. split; [eapply finish_call_ok; eauto|].
+        destruct (eqb K v (zero K)); [injection Ha as <-; exact H2|]. rewrite (add_dens_length _ _ _ _ Ha). exact H2. }
+    destruct HI as [H1 H2]. unfold wf_mcres_mc. cbn [m_plain m_adj m_weights].
+    rewrite (acc_result_wf _ _ H1). cbn [andb]. apply Nat.eqb_eq. exact H2.
+  Qed.
+
+  Lemma mc_chks_wf d n cb cs (c : mchk K) idx c' idx' ls :
+    mc_run L strm ps f mp d n cb cs c idx = Ok (c', idx', ls) -> wf_mchk (mchk_channels c n) = true ->
+    forall x, In x (chks _ _ (mchk_channels c n) ls) -> wf_mchk x = true.
+  Proof.
+    unfold mc_run. intros H Hwf. apply run_exec in H as (g & rest & _ & Hex).
+    apply (exec_inv_it _ _ _ _ _ _ (fun x => wf_mchk x = true)) with (2 := Hex); [|exact Hwf].
+    intros c1 calls g1 i1 r g' i' evs H1 Hi. apply bind_Ok in Hi as (ws & Hw & Hi).
+    unfold wf_mchk. cbn [mchk_add mc_base]. apply wf_base_add; [exact H1|]. eapply mc_iteration_wf; eauto.
+  Qed.
+
+  (* the prepared initial checkpoints: fresh ones are well formed *)
+  Lemma uniform_pdf_wf dims bins : wf_pdf (uniform_pdf (K:=K) dims bins) = true.
+  Proof.
+    unfold wf_pdf, uniform_pdf. cbn [pdf_x pdf_bins pdf_dims]. apply Nat.eqb_eq.
+    set (row := map _ _). assert (Hrow : length row = S (N.to_nat bins)) by (unfold row; rewrite map_length; apply iotaN_len).
+    assert (Hc : forall n, length (concat (repeat row n)) = n * length row).
+    { induction n as [|n IH]; cbn [repeat concat]; [reflexivity|]. rewrite app_length, IH. cbn. reflexivity. }
+    rewrite Hc, Hrow. lia.
+  Qed.
+
+  Lemma fresh_wf :
+    (forall g, wf_pchk (K:=K) (base_init g) = true) /\
+    (forall bins (alpha : K) g d, wf_vchk (vchk_dimensions (vchk_default bins alpha g) d) = true) /\
+    (forall (p : pdf K) alpha g d, wf_pdf p = true -> wf_vchk (vchk_dimensions (vchk_user p alpha g) d) = true) /\
+    (forall minw beta g n, wf_mchk (mchk_channels (mchk_default (K:=K) minw beta g) n) = true) /\
+    (forall (c : mchk K) n, wf_mchk c = true -> wf_mchk (mchk_channels c n) = true).
+  Proof.
+    split; [reflexivity|]. split; [|split; [|split]].
+    - intros bins alpha g d. unfold wf_vchk, vchk_dimensions, vchk_default. cbn. apply uniform_pdf_wf.
+    - intros p alpha g d Hp. unfold wf_vchk, vchk_dimensions, vchk_user. cbn. exact Hp.
+    - intros minw beta g n. unfold wf_mchk, mchk_channels, mchk_default. cbn. reflexivity.
+    - intros c n H. unfold wf_mchk in *. unfold mchk_channels. destruct (mc_first c); exact H.
+  Qed.
+  (** ** the composition theorems with well-formedness required of the initial checkpoint only *)
+  Variable digits10 : string.
+
+  Lemma plain_pieces_wf d cb p0 pcs cs (c : pchk K) idx c' idx' ls :
+    plain_run strm ps f d cb cs c idx = Ok (c', idx', ls) ->
+    p0 ++ concat pcs = firstn (length ls) cs ->
+    wf_pchk c = true ->
+    run_pieces (plain_run strm ps f d cb) (plain_reload digits10) p0 pcs c idx = Ok (c', idx', ls).
+  Proof. intros H Hcut Hwf. eapply plain_pieces; eauto. eapply plain_chks_wf; eauto. Qed.
+
+  Lemma vegas_pieces_wf d cb p0 pcs cs (c : vchk K) idx c' idx' ls :
+    (forall x y, vchk_eqv x y -> cb x = cb y) ->
+    vegas_run L strm ps f d cb cs c idx = Ok (c', idx', ls) ->
+    p0 ++ concat pcs = firstn (length ls) cs ->
+    wf_vchk (vchk_dimensions c d) = true ->
+    exists d' ls', run_pieces (vegas_run L strm ps f d cb) (vchk_reload digits10) p0 pcs c idx = Ok (d', idx', ls') /\
+      vchk_eqv c' d' /\ Forall2 (log_eqv _ _ vchk_eqv) ls ls' /\
+      ser_vchk digits10 d' = ser_vchk digits10 c' /\ (exists t, ser_vchk digits10 c' = Ok t).
+  Proof. intros Hcb H Hcut Hwf. eapply vegas_pieces; eauto. eapply vegas_chks_wf; eauto. Qed.
+
+  Lemma mc_pieces_wf d n cb p0 pcs cs (c : mchk K) idx c' idx' ls :
+    (forall x y, mchk_eqv x y -> cb x = cb y) ->
+    mc_run L strm ps f mp d n cb cs c idx = Ok (c', idx', ls) ->
+    p0 ++ concat pcs = firstn (length ls) cs ->
+    wf_mchk c = true ->
+    exists d' ls', run_pieces (mc_run L strm ps f mp d n cb) (mchk_reload digits10) p0 pcs c idx = Ok (d', idx', ls') /\
+      mchk_eqv c' d' /\ Forall2 (log_eqv _ _ mchk_eqv) ls ls' /\
+      ser_mchk digits10 d' = ser_mchk digits10 c'.
+  Proof.
+    intros Hcb H Hcut Hwf. eapply mc_pieces; eauto. eapply mc_chks_wf; eauto.
+    apply (proj2 (proj2 (proj2 (proj2 fresh_wf)))). exact Hwf.
+  Qed.
+
+  Lemma reachable_wf :
+    (forall d cb cs (c : pchk K) idx c' idx' ls,
+       plain_run strm ps f d cb cs c idx = Ok (c', idx', ls) -> wf_pchk c = true ->
+       forall x, In x (chks _ _ c ls) -> wf_pchk x = true) /\
+    (forall d cb cs (c : vchk K) idx c' idx' ls,
+       vegas_run L strm ps f d cb cs c idx = Ok (c', idx', ls) -> wf_vchk (vchk_dimensions c d) = true ->
+       forall x, In x (chks _ _ (vchk_dimensions c d) ls) -> wf_vchk x = true) /\
+    (forall d n cb cs (c : mchk K) idx c' idx' ls,
+       mc_run L strm ps f mp d n cb cs c idx = Ok (c', idx', ls) -> wf_mchk (mchk_channels c n) = true ->
+       forall x, In x (chks _ _ (mchk_channels c n) ls) -> wf_mchk x = true).
+  Proof. split; [exact plain_chks_wf|]. split; [exact vegas_chks_wf|exact mc_chks_wf]. Qed.
+End Wf.
+
+(* ================================================================================================ *)
 (** * non-vacuity: real runs in double precision (3 VEGAS iterations from Lemmas_C19, 2 PLAIN iterations
     from Lemmas_C12, 3 multi-channel iterations with two channels); every checkpoint shown to the
     callback is well formed, so all hypotheses of the theorems hold for them *)
